@@ -40,6 +40,8 @@ pub enum AtomChange {
     /// subgroup — the encoding is canonical and on the curve, and a verifier equation that is
     /// multiplied by a challenge divisible by 3 cannot see the difference
     SmallOrder,
+    /// the negated element / scalar (differs only in the sign bit of a compressed point)
+    Negate,
 }
 
 #[derive(Clone, Debug, Serialize, Deserialize)]
@@ -60,6 +62,7 @@ fn atom_change() -> impl Strategy<Value = AtomChange> {
         1 => Just(AtomChange::Zero),
         1 => Just(AtomChange::Neighbour),
         1 => Just(AtomChange::SmallOrder),
+        2 => Just(AtomChange::Negate),
     ]
 }
 
@@ -99,6 +102,9 @@ pub fn change_atom(img: &Image, i: usize, ch: &AtomChange) -> Option<Vec<u8>> {
         }
         (Kind::G1, AtomChange::Random(s)) => (G1Projective::generator() * rand_nonzero_scalar(*s)).to_atom(),
         (Kind::G1, AtomChange::Zero) => G1Projective::identity().to_atom(),
+        (Kind::G1, AtomChange::Negate) => (-G1Projective::from(wire::g1(&old)?)).to_atom(),
+        (Kind::G2, AtomChange::Negate) => (-bls12_381::G2Projective::from(wire::g2(&old)?)).to_atom(),
+        (Kind::B32, AtomChange::Negate) => (-wire::sc(&old)?).to_bytes().to_vec(),
         (Kind::G1, AtomChange::SmallOrder) => {
             let mut e = [0u8; 48];
             e[0] = 0x80;
@@ -261,6 +267,7 @@ fn run<const N: usize>(c: &Case, rec: &Rec) -> R {
                             AtomChange::Zero => "zero",
                             AtomChange::Neighbour => "neighbour",
                             AtomChange::SmallOrder => "plus-order-3-point",
+                            AtomChange::Negate => "negated",
                         }),
                         matches!(c.tamper, Tamper::AtomRederive(..)),
                     )
